@@ -184,6 +184,10 @@ type PatternRouterWatcher struct {
 	logger bridgelog.Logger
 	target string
 	closed atomic.Bool
+
+	// mu orders the closed check and the table mutation of UpdateDesc against Close,
+	// so that an update in flight during Close can't re-add routes after Close has removed them.
+	mu sync.Mutex
 }
 
 // UpdateDesc updates the description of the target this watcher is watching.
@@ -196,6 +200,9 @@ type PatternRouterWatcher struct {
 // UpdateDesc returns only when the routing state has been completely updated on the router,
 // which should be used to synchronize the target description update polling/watching logic.
 func (prw *PatternRouterWatcher) UpdateDesc(desc *bridgedesc.Target) {
+	prw.mu.Lock()
+	defer prw.mu.Unlock()
+
 	if prw.closed.Load() {
 		return
 	}
@@ -219,6 +226,9 @@ func (prw *PatternRouterWatcher) ReportError(error) {}
 // Close closes the watcher, preventing further updates from being applied to the router through it.
 // It is an error to call Close() multiple times on the same watcher, and doing so will result in a panic.
 func (prw *PatternRouterWatcher) Close() {
+	prw.mu.Lock()
+	defer prw.mu.Unlock()
+
 	if !prw.closed.CompareAndSwap(false, true) {
 		panic("grpcbridge: PatternRouterWatcher.Close() called multiple times")
 	}
